@@ -23,14 +23,15 @@ the interpretation is handed over: {"int_obs": [names given as a Python int],
 Outcomes: [0, [dom, cod, [shape, data]]] / [1, code]."""
 import json
 
-from common import import_repo, with_timeout, CaseTimeout, freeze
+from common import with_timeout, CaseTimeout, freeze
+import tensor_impl as ti   # canonical arrays, exact-integer check; imports discopy from /repo (once)
 
-discopy = import_repo()
+discopy = ti.discopy
 import numpy  # noqa: E402
 from discopy import monoidal, rigid, tensor  # noqa: E402
 from discopy.cat import AxiomError  # noqa: E402
+from discopy.rewriting import InterchangerError  # noqa: E402
 from discopy.tensor import Tensor, Dim  # noqa: E402
-import tensor_impl as ti  # noqa: E402  (canonical arrays, exact-integer check)
 
 KBOX, KSWAP, KCUP, KCAP = 0, 1, 2, 3
 DLIT, DSPIDER, DTERM = 0, 1, 2
